@@ -1,5 +1,5 @@
 /*VERIF
-{ "tu": "src/queue.c", "enforce": "_dispatch_lane_inherit_wlh_from_target", "props": ["C03", "C06"], "nondet_volatile": true, "timeout": 200,
+{ "tu": "src/queue.c", "enforce": "_dispatch_lane_inherit_wlh_from_target", "props": ["C03", "C06", "C01", "C02"], "nondet_volatile": true, "timeout": 200,
   "stub_note": "_dispatch_base_lane_is_wlh: arbitrary result; deferred items: none" }
 VERIF*/
 #ifdef VERIF_PRE
